@@ -610,6 +610,11 @@ func c01RefEmbl(data []byte, withFeat bool) ([]c01Rec, bool) {
 				if _, err := strconv.Atoi(fs[len(fs)-1]); err != nil {
 					return nil, false
 				}
+				// the coordinate ends the line: blanks after it are not part of the format (the real parser
+				// drops the LAST blank-separated field, so such a line is outside what it is specified for)
+				if c := l[len(l)-1]; c < '0' || c > '9' {
+					return nil, false
+				}
 				groups := strings.TrimRight(l[5:], "0123456789")
 				if strings.Contains(strings.TrimRight(groups, " "), "  ") || !strings.HasSuffix(groups, " ") {
 					return nil, false
